@@ -59,6 +59,10 @@ def gen(rng, n):
             step = {'cmd': 'rm', 'argv': [rng.choice(['*', 'shared*', scen.Layout.j(v, 'sh/*'), scen.Layout.j(v, 'sh/shared0'), scen.Layout.j(v, 'sh/shared0')])]}
         elif cmd == 'restore':
             step = {'cmd': 'restore', 'argv': [rng.choice(['/', v])], 'stdin': rng.choice(['0\n', '0-2\n', '\n'])}
+            if v != '/' and rng.random() < 0.35:
+                # the mount table trash-restore reads does not report this volume (a bind mount, a fuse file system) although
+                # TRASH_VOLUMES names it: whatever trash-restore makes of that, $topdir/.Trash/$uid stays under the same rules
+                step['listed_mounts'] = ['/'] + [m for m in sorted(lay.all_vols) if m not in ('/', v)]
         else:
             step = {'cmd': 'put', 'argv': ['--', victim], 'now': [2024, 5, 6, 7, 8, 9, 0]}
         step['listdir'] = rng.choice(['sorted', 'reverse'])
